@@ -216,11 +216,15 @@ CLAIMS = {
          "_rd_nonbigmat_ascii/_rd_bigmat_binary: decode(encode(start row, run)) == (start row, run) for every start row and run length and real/complex multiplier; "
          "the column word count equals what the reader consumes per string; every value handed to a 32-bit struct field fits (outside one recorded region); and "
          "every ASCII number rendered with the format string the real header code builds has exactly the announced width numlen, for both digit settings, both "
-         "signs and every decade (symbolic string domain; outside one recorded region). Bounded part: real op4.write -> load/dir over binary x byte order x layout x "
+         "signs and every decade (symbolic string domain; outside one recorded region). Loop contracts (contracts/op4_writers.py) put the binary WRITERS _write_binary (dense), "
+         "_write_binary_bigmat and _write_binary_nonbigmat (ndarray input; _write_binary_sparse and the nested helpers inlined) on a ghost output file: one record per column with data, "
+         "every record / string header equal to the format definition that the READER contract of C11 takes as its precondition (the same Python functions dense_record_def / "
+         "string_header_def), values = the column's rows first..last non-zero / each maximal run, strings fill the record exactly, end record icol = cols+1 - for every matrix, "
+         "number of columns and runs (255 obligations, ~2 s); with C11's reader obligations this is the binary round trip as a lemma over two contracts. Bounded part: real op4.write -> load/dir over binary x byte order x layout x "
          "real/complex x ndarray/scipy-sparse input x dense/sparse/auto read, several matrices per file, magnitudes to 1e+-308, 65535/65536 rows, runs >= 3000 values. "
          "Two known findings (D3 ASCII field overflow, D4 nonbigmat string header overflow).",
-    note="Partial: the file plumbing around the kernels is only exercised by the bounded round trips. Trusted: z3, AST extraction (fails closed), printf %E contract.",
-    technique="verification conditions generated from AST-extracted assignments of the real writer/reader (z3 LIA); symbolic string domain for the field width; known-finding regions carved out; bounded write->read round trips"),
+    note="Partial: the ASCII writers, the scipy-sparse input branch and the header writer are only exercised by the bounded round trips. Trusted: z3, AST extraction (fails closed), printf %E contract; assumed in the writer contracts: numpy nonzero/slicing/.dtype semantics, _sparse_col_stats returns the maximal runs, _write_binary_header's contract, 32-bit capacity of the format.",
+    technique="loop contracts of the real binary writers on a ghost output file (VC generator over the AST, z3), record definitions shared with the reader contracts; verification conditions generated from AST-extracted assignments of the real writer/reader (z3 LIA); symbolic string domain for the field width; known-finding regions carved out; bounded write->read round trips"),
  "C11": dict(
     text="Deductive part: loop contracts over a GHOST FILE (byte offset + uninterpreted content; fp.read/seek, Struct.unpack, struct.unpack, np.fromfile are contract objects of the VC generator) for the binary OUTPUT4 column readers _rd_dense/_rd_bigmat/_rd_nonbigmat_binary, _skipop4_binary and the tail of _loadop4_binary (reader called under its contract), and for OUTPUT2 rdop2matrix/skipop2matrix (with _getkey inlined): the record grammars are recursive well-formedness predicates; every read has the size of the struct it is unpacked with, every string is stored at the (row, column, file offset, count) the grammar defines (complex row doubling included), reader and skipper end on the same byte - for every file, any number of columns and strings (induction over both loops, ~630 obligations, z3). The class invariant of _op4open_read (struct sizes, byte order, words per real) is decided by running its real binary branch for both integer widths and byte orders. The rest is a bounded differential check, stated as such: an encoder that shares no code with pyYeti (vc/nasenc.py, its record skeleton compared with a Nastran-written sample "
          "file on every run) lays out matrices and tables in every physical variant the formats permit - OUTPUT4 binary {byte order} x {32/64-bit integers} x {dense, bigmat, "
